@@ -105,6 +105,13 @@ def gcirc_body(case):
         refb = vincenty_ld(r0[0], r0[1], r[:, 2], r[:, 3])
         refb = refb if units == 0 else refb * (180 / PI_LD) * 3600
         grid = np.asarray(call(gcirc, a[:, 0][:, None], a[:, 1][:, None], a[:, 2][None, :], a[:, 3][None, :], units=units))
+        # RA and Dec of one point with different shapes: a strip of constant declination against one point
+        strip = np.asarray(call(gcirc, a[:, 0], float(a[0, 1]), float(a[0, 2]), float(a[0, 3]), units=units))
+        refs = vincenty_ld(r[:, 0], r0[1], r0[2], r0[3])
+        refs = refs if units == 0 else refs * (180 / PI_LD) * 3600
+        with judge('gcirc-strip'):
+            check(strip.shape == (len(a),), 'gcirc:strip-shape', str(strip.shape))
+            check(bool(np.all(np.abs(strip.astype(LD) - refs) <= 1e-6 * refs + floor)), 'gcirc:strip-wrong-distance', lambda: dict(units=units))
         with judge('gcirc-broadcast'):
             check(one.shape == (len(a),), 'gcirc:broadcast-shape', str(one.shape))
             check(bool(np.all(np.abs(one.astype(LD) - refb) <= 1e-6 * refb + floor)), 'gcirc:broadcast-wrong-distance', lambda: dict(units=units))
@@ -153,7 +160,8 @@ def munu_case(draw):
         else:
             pts.append([180.0 * (1 + draw(uf)), math.degrees(math.asin(draw(uf)))])
     mus = [180.0 * (1 + draw(uf)) for _ in range(draw(st.integers(1, 4)))]
-    return dict(stripe=stripe, points=pts, mus=mus, grid2d=draw(st.sampled_from([False, False, True])))
+    return dict(stripe=stripe, points=pts, mus=mus, grid2d=draw(st.sampled_from([False, False, True])),
+                distance=draw(st.sampled_from([None, None, 0.5, 3.0, 1.0])))
 
 
 def unit_radec(ra, dec):
@@ -197,7 +205,11 @@ def munu_body(case):
         # positions handed over as a 2-D (image-shaped) coordinate array
         k = 3 if len(P) % 3 == 0 else (2 if len(P) % 2 == 0 else 1)
         shp = (k, len(P) // k)
-    icrs = ICRS(ra=P[:, 0].reshape(shp) * u.deg, dec=P[:, 1].reshape(shp) * u.deg)
+    if case.get('distance'):
+        # positions that carry a distance: the direction is what is transformed
+        icrs = ICRS(ra=P[:, 0].reshape(shp) * u.deg, dec=P[:, 1].reshape(shp) * u.deg, distance=np.full(shp, case['distance']) * u.kpc)
+    else:
+        icrs = ICRS(ra=P[:, 0].reshape(shp) * u.deg, dec=P[:, 1].reshape(shp) * u.deg)
     mn = call(icrs.transform_to, SDSSMuNu(stripe=s), what='ICRS->SDSSMuNu')
     with judge('forward'):
         check(np.shape(mn.mu) == shp, 'munu:shape-not-kept', lambda: dict(got=np.shape(mn.mu), want=shp))
@@ -239,7 +251,7 @@ def munu_body(case):
 
 def munu_classify(case):
     s = case['stripe']
-    out = ['2d-array' if case.get('grid2d') else '1d-array', 'incl!=0' if incl_of(s) != 0 else 'incl=0', 'incl<0' if incl_of(s) < 0 else 'incl>=0', 'stripe>46' if s > 46 else 'stripe<=46']
+    out = ['with-distance' if case.get('distance') else 'direction-only', '2d-array' if case.get('grid2d') else '1d-array', 'incl!=0' if incl_of(s) != 0 else 'incl=0', 'incl<0' if incl_of(s) < 0 else 'incl>=0', 'stripe>46' if s > 46 else 'stripe<=46']
     if any(abs(p[1]) == 90 for p in case['points']):
         out.append('pole-point')
     return out
